@@ -44,7 +44,8 @@ class BitStore:
 
     def __init__(self, initializer: Union[int, bitarray.bitarray, str, None] = None,
                  immutable: bool = False) -> None:
-        self._bitarray = bitarray.bitarray(initializer)
+        # A bitarray initializer can have either bit-endianness, but everything here assumes big-endian.
+        self._bitarray = bitarray.bitarray(initializer, endian='big')
         self.immutable = immutable
         self.modified_length = None
 
